@@ -51,6 +51,8 @@ pub enum Storage {
 pub enum ElemTy {
     U32,
     F32x2,
+    /// an element with a destructor (Fixed only: Bounded requires Copy elements)
+    Owned,
 }
 
 #[derive(Clone, Debug, Serialize, Deserialize)]
@@ -407,6 +409,7 @@ pub fn check_bounded(c: &BCase, st: &mut Stats) -> CheckResult {
     match c.elem {
         ElemTy::U32 => bounded_elem::<u32>(c, st),
         ElemTy::F32x2 => bounded_elem::<[f32; 2]>(c, st),
+        ElemTy::Owned => Err("bad case: Bounded requires Copy elements".into()),
     }
 }
 
@@ -676,7 +679,124 @@ pub fn check_fixed(c: &FCase, st: &mut Stats) -> CheckResult {
     match c.elem {
         ElemTy::U32 => fixed_elem::<u32>(c, st),
         ElemTy::F32x2 => fixed_elem::<[f32; 2]>(c, st),
+        ElemTy::Owned => fixed_owned(c, st),
     }
+}
+
+// ------------------------------------------------------------------------------------ Fixed over elements with a destructor
+
+thread_local! {
+    /// per-case ledger: number of times the destructor of element `id` has run
+    static LEDGER: std::cell::RefCell<Vec<u8>> = std::cell::RefCell::new(Vec::new());
+}
+
+/// An element that is not `Copy` and records its own destruction. It owns no heap memory, so a double drop
+/// shows up in the ledger instead of corrupting the harness.
+#[derive(Debug)]
+pub struct Owned {
+    id: u32,
+}
+impl Owned {
+    fn mk() -> Owned {
+        LEDGER.with(|l| {
+            let mut l = l.borrow_mut();
+            l.push(0);
+            Owned { id: l.len() as u32 - 1 }
+        })
+    }
+}
+impl Drop for Owned {
+    fn drop(&mut self) {
+        LEDGER.with(|l| {
+            let mut l = l.borrow_mut();
+            let c = &mut l[self.id as usize];
+            *c = c.saturating_add(1);
+        })
+    }
+}
+fn drops(id: u32) -> u8 {
+    LEDGER.with(|l| l.borrow()[id as usize])
+}
+
+/// every element ever created is either live in the buffer (destructor never ran) or gone (ran exactly once)
+fn ledger_agrees(live: &VecDeque<u32>, what: &str) -> CheckResult {
+    let n = LEDGER.with(|l| l.borrow().len()) as u32;
+    for id in 0..n {
+        let d = drops(id);
+        if live.contains(&id) {
+            ensure!(d == 0, "{}: element #{} is live in the buffer but its destructor has run {} time(s)", what, id, d);
+        } else {
+            ensure!(d == 1, "{}: element #{} left the buffer and its destructor has run {} times (must be exactly once)", what, id, d);
+        }
+    }
+    Ok(())
+}
+
+fn fixed_owned(c: &FCase, st: &mut Stats) -> CheckResult {
+    ensure!(c.cap >= 1 && c.first < c.cap, "bad case: invalid raw parts");
+    LEDGER.with(|l| l.borrow_mut().clear());
+    let n = c.cap;
+    // backing slot j holds element #j; oldest-first order starts at `first`
+    let slots: Vec<Owned> = (0..n).map(|_| Owned::mk()).collect();
+    let mut q: VecDeque<u32> = (0..n).map(|i| ((c.first + i) % n) as u32).collect();
+    let mut mfirst = c.first;
+    let mut rb = Fixed::from_raw_parts(c.first, slots);
+    let mut pushes = 0usize;
+    for (k, op) in c.ops.iter().enumerate() {
+        let what = format!("op #{} {:?}", k, op);
+        match op {
+            FOp::Push => {
+                let new = Owned::mk();
+                let new_id = new.id;
+                let exp = q.pop_front().unwrap();
+                q.push_back(new_id);
+                mfirst = (mfirst + 1) % n;
+                let got = rb.push(new);
+                let (gid, d) = (got.id, drops(got.id));
+                if gid != exp || d != 0 {
+                    std::mem::forget(got);
+                    ensure!(gid == exp, "{}: push returned element #{}, the oldest element was #{}", what, gid, exp);
+                    return Err(format!("{}: push returned element #{} whose destructor has already run {} time(s): the slot held no live element", what, gid, d));
+                }
+                drop(got);
+                pushes += 1;
+            }
+            FOp::Extend(m) => {
+                let items: Vec<Owned> = (0..*m).map(|_| Owned::mk()).collect();
+                for it in &items {
+                    q.pop_front();
+                    q.push_back(it.id);
+                    mfirst = (mfirst + 1) % n;
+                }
+                rb.extend(items);
+                pushes += *m;
+            }
+            FOp::GetMutSet(i) | FOp::IndexMutSet(i) => {
+                let new = Owned::mk();
+                let new_id = new.id;
+                let old = if matches!(op, FOp::GetMutSet(_)) { std::mem::replace(rb.get_mut(*i), new) } else { std::mem::replace(&mut rb[*i], new) };
+                ensure!(old.id == q[*i % n], "{}: slot held element #{}, model #{}", what, old.id, q[*i % n]);
+                ensure!(drops(old.id) == 0, "{}: slot {} exposed element #{} whose destructor has already run", what, i, old.id);
+                q[*i % n] = new_id;
+            }
+            FOp::SetFirst(i) => {
+                rb.set_first(*i);
+                let target = *i % n;
+                q.rotate_left((target + n - mfirst) % n);
+                mfirst = target;
+            }
+            _ => {}
+        }
+        let it: Vec<u32> = rb.iter().map(|e| e.id).collect();
+        let want: Vec<u32> = q.iter().copied().collect();
+        ensure!(it == want, "{}: iter() yields elements {:?}, model {:?} (oldest first)", what, it, want);
+        ensure!((0..2 * n).all(|i| rb.get(i).id == want[i % n]), "{}: get(i) disagrees with the model {:?}", what, want);
+        ledger_agrees(&q, &what)?;
+    }
+    st.nt(pushes > 0 && c.first != 0);
+    st.class_if(pushes > n, "owned elements: more pushes than slots");
+    drop(rb);
+    ledger_agrees(&VecDeque::new(), "after dropping the buffer")
 }
 
 // ------------------------------------------------------------------------------------ constructors
